@@ -7,10 +7,19 @@ pub mod c11;
 pub mod game;
 pub mod hist;
 pub mod pos;
+pub mod recur;
 pub mod search;
 pub mod util;
 
 use crate::runner::DynCheck;
+
+fn with_recurrence(rule: &'static str) -> &'static str {
+    Box::leak(format!("{}{}", rule, recur::RULE).into_boxed_str())
+}
+
+fn rec(name: &'static str, judge: recur::Judge) -> Box<dyn DynCheck> {
+    Box::new(recur::RecurrenceGames { name, judge })
+}
 
 pub struct PropertySpec {
     pub id: &'static str,
@@ -33,9 +42,15 @@ pub fn property(id: &str) -> Option<PropertySpec> {
         },
         "C03" => PropertySpec {
             id: "C03",
-            rule: hist::C03_RULE,
+            rule: with_recurrence(hist::C03_RULE),
             assumptions: vec![ORACLE, SETUP],
-            checks: vec![Box::new(hist::C03Moves), Box::new(hist::C03Histories), Box::new(hist::C03LongGames)],
+            checks: vec![
+                Box::new(hist::C03Moves),
+                Box::new(hist::C03Histories),
+                Box::new(hist::C03LongGames),
+                Box::new(hist::C03Marathon),
+                rec("C03/recurrence-games", recur::Judge { successor: true, ..Default::default() }),
+            ],
         },
         "C04" => PropertySpec {
             id: "C04",
@@ -45,21 +60,25 @@ pub fn property(id: &str) -> Option<PropertySpec> {
         },
         "C05" => PropertySpec {
             id: "C05",
-            rule: c05::RULE,
+            rule: with_recurrence(c05::RULE),
             assumptions: vec![ORACLE, SETUP, "a first lose_castle_rights/push_en_passant_target on a new board toggles exactly the requested keys, so the from-scratch board is a valid reference for the key of a position"],
-            checks: c05::checks(),
+            checks: {
+                let mut v = c05::checks();
+                v.push(rec("C05/recurrence-games", recur::Judge { key: true, ..Default::default() }));
+                v
+            },
         },
         "C12" => PropertySpec {
             id: "C12",
-            rule: hist::C12_RULE,
+            rule: with_recurrence(hist::C12_RULE),
             assumptions: vec![ORACLE, SETUP],
-            checks: vec![Box::new(hist::C12Histories), Box::new(hist::C12EngineMoves), Box::new(hist::C12EngineDriven), Box::new(hist::C12LongGames), Box::new(hist::C12Marathon)],
+            checks: vec![Box::new(hist::C12Histories), Box::new(hist::C12EngineMoves), Box::new(hist::C12EngineDriven), Box::new(hist::C12LongGames), Box::new(hist::C12Marathon), rec("C12/recurrence-games", recur::Judge { invariants: true, ..Default::default() })],
         },
         "C16" => PropertySpec {
             id: "C16",
-            rule: hist::C16_RULE,
+            rule: with_recurrence(hist::C16_RULE),
             assumptions: vec![ORACLE, SETUP, "harness and engine are compiled with overflow-checks and debug-assertions on"],
-            checks: vec![Box::new(hist::C16Games), Box::new(game::C16GameApi), Box::new(hist::C16Marathon)],
+            checks: vec![Box::new(hist::C16Games), Box::new(game::C16GameApi), Box::new(hist::C16Marathon), rec("C16/recurrence-games", recur::Judge { clock: true, ..Default::default() })],
         },
         "C02" => PropertySpec {
             id: "C02",
@@ -75,9 +94,13 @@ pub fn property(id: &str) -> Option<PropertySpec> {
         },
         "C07" => PropertySpec {
             id: "C07",
-            rule: search::C07_RULE,
+            rule: with_recurrence(search::C07_RULE),
             assumptions: vec![ORACLE, SETUP, CAP, "a hang is caught by the watchdog and reported as inconclusive (exit 2), never as a violation"],
-            checks: search::c07_checks(),
+            checks: {
+                let mut v = search::c07_checks();
+                v.push(rec("C07/recurrence-games", recur::Judge { engine: true, ..Default::default() }));
+                v
+            },
         },
         "C08" => PropertySpec {
             id: "C08",
@@ -105,7 +128,7 @@ pub fn property(id: &str) -> Option<PropertySpec> {
         },
         "C13" => PropertySpec {
             id: "C13",
-            rule: pos::C13_RULE,
+            rule: with_recurrence(pos::C13_RULE),
             assumptions: vec![ORACLE, SETUP, CAP, "reference SAN writer in harness/src/oracle/notation.rs (FIDE C.10: file, then rank, then square)"],
             checks: vec![
                 Box::new(pos::C13Positions),
@@ -113,25 +136,39 @@ pub fn property(id: &str) -> Option<PropertySpec> {
                     name: "C13/session",
                     listings_only: true,
                 }),
+                rec("C13/recurrence-games", recur::Judge { listing: true, ..Default::default() }),
             ],
         },
         "C14" => PropertySpec {
             id: "C14",
-            rule: game::C14_RULE,
+            rule: with_recurrence(game::C14_RULE),
             assumptions: vec![ORACLE, SETUP, CAP, "move_history has no length accessor: it is observed through most_recent_move()", "the CLI is the dev-profile build of /repo's working tree in /verif/target/debug; unparseable output is inconclusive"],
-            checks: game::c14_checks(),
+            checks: {
+                let mut v = game::c14_checks();
+                v.push(rec("C14/recurrence-games", recur::Judge { typed: true, ..Default::default() }));
+                v
+            },
         },
         "C15" => PropertySpec {
             id: "C15",
-            rule: game::C15_RULE,
+            rule: with_recurrence(game::C15_RULE),
             assumptions: vec![ORACLE, SETUP, CAP, "the choice among book continuations is the engine's own thread_rng; every child is also covered deterministically by the trie walk"],
-            checks: game::c15_checks(),
+            checks: {
+                let mut v = game::c15_checks();
+                v.push(rec("C15/recurrence-games", recur::Judge { engine: true, ..Default::default() }));
+                v.push(Box::new(search::DeepBlocked { name: "C15/deep-blocked" }));
+                v
+            },
         },
         "C17" => PropertySpec {
             id: "C17",
-            rule: game::C17_RULE,
+            rule: with_recurrence(game::C17_RULE),
             assumptions: vec![ORACLE, SETUP, "the caller flips the turn before registering, as the game loops do"],
-            checks: game::c17_checks(),
+            checks: {
+                let mut v = game::c17_checks();
+                v.push(rec("C17/recurrence-games", recur::Judge { counts: true, ..Default::default() }));
+                v
+            },
         },
         "C18" => PropertySpec {
             id: "C18",
